@@ -130,12 +130,14 @@ class OpGen:
         return self.uniq() + self.rng.choice([0.0, 0.5, 0.125])
 
     def intermediate_value(self) -> float:
+        # non-finite values are frequent on purpose: overwriting one non-finite value by
+        # another one (they share the NULL column in SQL) must be seen
         r = self.rng.random()
-        if r < 0.12:
+        if r < 0.15:
             return float("nan")
-        if r < 0.2:
+        if r < 0.3:
             return float("inf")
-        if r < 0.28:
+        if r < 0.45:
             return float("-inf")
         return self.uniq() * 1.5
 
@@ -322,7 +324,7 @@ class OpGen:
         if th is None:
             return None
         if r < 0.7:
-            return {"op": "set_trial_intermediate_value", "trial": th, "step": rng.randint(0, 5), "value": cf(self.intermediate_value())}
+            return {"op": "set_trial_intermediate_value", "trial": th, "step": rng.choice([0, 0, 1, 1, 2, 5]), "value": cf(self.intermediate_value())}
         k = "set_trial_user_attr" if r < 0.85 else "set_trial_system_attr"
         return {"op": k, "trial": th, "key": rng.choice(["a", "b", "kü"]), "value": cf(self.attr_value())}
 
